@@ -162,6 +162,22 @@ def mem_key(fn, v, depth=0):
     return ('unknown',)
 
 
+def base_kind(fn, v, depth=0):
+    """'alloca' | 'param' | 'global' | 'unknown': what object a pointer operand is derived from"""
+    if v[0] == 'global':
+        return 'global'
+    if v[0] != 'local' or depth > 12:
+        return 'unknown'
+    d = fn.defs.get(v[1])
+    if d is None:
+        return 'param'
+    if d.op == 'alloca':
+        return 'alloca'
+    if d.op in ('getelementptr', 'bitcast'):
+        return base_kind(fn, d.ops[0][1], depth + 1)
+    return 'unknown'
+
+
 class Taint:
     def __init__(self, mod, is_source, result_args=None, skip_fns=()):
         """is_source(fn, ins) -> bool for loads; result_args: callee name -> list of argument indices whose
